@@ -307,9 +307,13 @@ pub fn generate(rng: &mut Rng, tier: Tier, stats: &mut GenStats) -> Scenario {
     }
     w.victims = victims;
     w.order = g.order(true);
-    if g.rng.chance(15, 100) {
-        let deepest = tree.iter().map(|n| depth_of(&n.path)).max().unwrap_or(1);
-        w.depth = Depth::Max(g.rng.range(1, deepest + 1));
+    let deepest = tree.iter().map(|n| depth_of(&n.path)).max().unwrap_or(1);
+    match g.rng.below(100) {
+        0..=14 => w.depth = Depth::Max(g.rng.range(1, deepest + 1)),
+        // a minimum depth hides entries, never errors: a fault above the minimum is still reported
+        15..=24 => w.depth = Depth::Min(g.rng.range(1, deepest.max(2) - 1)),
+        25..=29 => w.depth = Depth::MinMax(g.rng.range(1, deepest), g.rng.range(1, deepest + 1)),
+        _ => {},
     }
     // Faults hit by one walk must not affect another: sometimes a second, independent walk (often
     // over a healthy part of the tree) is advanced alternately.
@@ -652,7 +656,7 @@ pub fn check(sc: &Scenario, env: &mut Env) -> Result<Outcome, HarnessError> {
         // a maximum depth: entries beyond it do not exist for the walk, and a directory exactly at
         // it is yielded but never opened, so its fault never fires
         let shift = crate::exec::depth_shift(w, &env.root_text);
-        let (_, max) = w.depth.shifted(shift).window();
+        let (min, max) = w.depth.shifted(shift).window();
         let clip = |vs: Vec<Visit>| -> Vec<Visit> {
             let Some(max) = max
             else {
@@ -677,7 +681,10 @@ pub fn check(sc: &Scenario, env: &mut Env) -> Result<Outcome, HarnessError> {
             out.probe("depth:max-with-faults");
         }
         let matches = |p: &str| glob.as_ref().map_or(true, |g| g.is_match(space.rel(p).as_str()));
-        source_clauses(sc, wi, w, &uv, &visits, &hvisits, &space, glob.is_some(), &matches, &model, &mut out);
+        if min > 0 {
+            out.probe("depth:min-with-faults");
+        }
+        source_clauses(sc, wi, w, &uv, &visits, &hvisits, &space, glob.is_some(), &matches, &model, min, &mut out);
         // the stack over it
         let real_layers = w.layers.len() > 1 || !matches!(w.layers.first(), Some(Layer::Fe(t)) if t.is_empty());
         if real_layers {
@@ -727,6 +734,7 @@ fn source_clauses(
     is_glob: bool,
     matches: &dyn Fn(&str) -> bool,
     model: &Model,
+    min: usize,
     out: &mut Outcome,
 ) {
     // The directory the walk starts in (the invariant prefix of a glob) may itself lie beneath a
@@ -757,11 +765,13 @@ fn source_clauses(
             continue;
         }
         let m = matches(&v.path);
+        // (entries above a minimum depth are not yielded; their errors are)
+        let deep_enough = std::path::Path::new(&space.rel(&v.path)).components().count() >= min;
         if is_glob && v.path == space.start && space.start_is_base {
-            base_may = m;
+            base_may = m && deep_enough;
             continue;
         }
-        if m {
+        if m && deep_enough {
             expected.push(v.path.clone());
         }
     }
